@@ -21,16 +21,19 @@ PAIRS = [
     ("dispatch", N + "ip_slice::IpSlice::from_slice", N + "ipv4_slice::Ipv4Slice::from_slice", 4, "same"),
     ("dispatch", N + "lax_ip_slice::LaxIpSlice::from_slice", N + "lax_ipv4_slice::LaxIpv4Slice::from_slice", 4, "same"),
     ("dispatch", N + "ip_headers::IpHeaders::from_slice_lax", N + "ip_headers::IpHeaders::from_ipv4_slice_lax", 4, "same"),
+    # IPv6 half: the extension parsers shared by both siblings are uninterpreted functions of their arguments (UF), so
+    # what is compared is everything around them: which slice and next-header number they are handed, the payload cut,
+    # the error fix-ups
+    ("dispatch", N + "ip_headers::IpHeaders::from_slice", N + "ip_headers::IpHeaders::from_ipv6_slice", 6, "same"),
+    ("dispatch", N + "ip_slice::IpSlice::from_slice", N + "ipv6_slice::Ipv6Slice::from_slice", 6, "same"),
+    ("dispatch", N + "lax_ip_slice::LaxIpSlice::from_slice", N + "lax_ipv6_slice::LaxIpv6Slice::from_slice", 6, "same"),
     ("lax", "link::macsec_slice::MacsecSlice::from_slice", "link::lax_macsec_slice::LaxMacsecSlice::from_slice", None, "lax"),
     ("lax", N + "ipv4_slice::Ipv4Slice::from_slice", N + "lax_ipv4_slice::LaxIpv4Slice::from_slice", None, "lax"),
     ("lax", N + "ip_headers::IpHeaders::from_ipv4_slice", N + "ip_headers::IpHeaders::from_ipv4_slice_lax", None, "lax"),
 ]
-# pairs that walk IPv6 extension chains: the joint path count exceeds the time budget (measured: > 150 s each); they are
-# not run and nothing is claimed for them
+# not run, nothing claimed: the strict-vs-lax IPv6 pairs call *different* extension parsers (no shared callee to abstract,
+# joint walks > 150 s each); the lax IPv6 dispatch pair compares stop errors whose wrappers are not fixed on the path
 IPV6_PAIRS = [
-    ("dispatch", N + "ip_headers::IpHeaders::from_slice", N + "ip_headers::IpHeaders::from_ipv6_slice", 6, "same"),
-    ("dispatch", N + "ip_slice::IpSlice::from_slice", N + "ipv6_slice::Ipv6Slice::from_slice", 6, "same"),
-    ("dispatch", N + "lax_ip_slice::LaxIpSlice::from_slice", N + "lax_ipv6_slice::LaxIpv6Slice::from_slice", 6, "same"),
     ("dispatch", N + "ip_headers::IpHeaders::from_slice_lax", N + "ip_headers::IpHeaders::from_ipv6_slice_lax", 6, "same"),
     ("lax", N + "ipv6_slice::Ipv6Slice::from_slice", N + "lax_ipv6_slice::LaxIpv6Slice::from_slice", None, "lax"),
     ("lax", N + "ip_slice::IpSlice::from_slice", N + "lax_ip_slice::LaxIpSlice::from_slice", None, "lax"),
@@ -326,10 +329,10 @@ def is_heavy(p):
     return p[0] == "lax" and ("ipv6" in p[1].lower() or p[1].endswith(("IpSlice::from_slice", "IpHeaders::from_slice")))
 
 
-def run(F, inv, summaries, jobs=None, only=None, rules=None, heavy=False):
+def run(F, inv, summaries, jobs=None, only=None, rules=None, heavy=False, ipv6=False):
     global _F, _INV, _SUMM
     _F, _INV, _SUMM = F, inv, summaries
-    pairs = [p for p in PAIRS if (not only or only in p[1] + p[2]) and (not rules or p[0] in rules)
+    pairs = [p for p in (PAIRS + (IPV6_PAIRS if ipv6 else [])) if (not only or only in p[1] + p[2]) and (not rules or p[0] in rules)
              and (heavy or not is_heavy(p))]
     jobs = jobs or min(16, os.cpu_count() or 4)
     ctx = mp.get_context("fork")
